@@ -23,6 +23,10 @@ enum VState {
 }
 
 fn case(r: &mut Rng, res: &mut CaseResult) {
+    if r.chance(1, 3) {
+        session::ambient_jitter(Some(r.next()));
+        res.tags.insert("transport jitter".to_string());
+    }
     let fp = if r.chance(1, 2) { r.range(200, 1500) } else { 0 };
     hooks::set_failpoint_delay(fp);
     let (conn, h) = session::open_default(Reflex::default());
